@@ -421,6 +421,15 @@ func (mr *msgReader) Read(p []byte) (n int, err error) {
 		p = p[:n]
 		mr.dict.write(p)
 	}
+	if err == io.EOF && mr.flate {
+		// The sender ended its DEFLATE stream with a BFINAL=1 block (RFC 7692 section 7.2.3.4),
+		// so the flate reader stopped before the end of the message. Discard what is
+		// left of the message so that it cannot be taken for part of the next one.
+		_, err = io.Copy(io.Discard, mr.flateBufio)
+		if err == nil {
+			err = io.EOF
+		}
+	}
 	// The message has only ended if the whole of its final frame has been read.
 	// An EOF before that comes from the transport, and must not be reported as
 	// the end of the message or the caller would take a truncated message for a
